@@ -147,6 +147,35 @@ impl Gen<'_> {
 				self.note("call");
 				return self.call(d);
 			}
+			3 if ty == Ty::Num => {
+				// sharing: the same memoised position is read several times
+				self.note("share");
+				match self.rng.below(4) {
+					0 => {
+						let o = self.obj_lit(d, false);
+						let x = self.fresh("so");
+						return format!("(local {x} = {o}; std.foldl(function(acc, k) acc + {x}[k], std.objectFields({x}) + std.objectFields({x}), 0))");
+					}
+					1 => {
+						let n = 1 + self.rng.below(3);
+						let es: Vec<String> = (0..n).map(|_| { let e = self.expr(Ty::Num, d); self.traced(e) }).collect();
+						let x = self.fresh("sa");
+						return format!("(local {x} = [{}]; {x}[0] + {x}[0] + std.foldl(function(acc, v) acc + v, {x}, 0))", es.join(", "));
+					}
+					2 => {
+						let a = self.expr(Ty::Num, d);
+						let a = self.traced(a);
+						let x = self.fresh("sp");
+						return format!("((function({x}) {x} + {x} * {x})({a}))");
+					}
+					_ => {
+						let base = self.obj_lit(d, false);
+						let ext = self.obj_lit(d, true);
+						let x = self.fresh("sx");
+						return format!("(local {x} = {base} + {ext}; (if std.objectHas({x}, \"a\") then {x}.a + {x}.a else 0) + std.length({x}))");
+					}
+				}
+			}
 			_ => {}
 		}
 		match ty {
